@@ -1,4 +1,5 @@
 import Proofs.Lemmas.Synth
+import Proofs.Lemmas.Mult
 import Model.Core.Spec
 /-!
 # C03 — synthesize() preserves behaviour
@@ -62,4 +63,58 @@ theorem basicSelect_eq_spec (s : Bool) (a b : List Bool) (h : a.length = b.lengt
 example : toNat (basicSub [false, false] [false, false]) = 0 := by decide
 example : toNat (basicSub [true, false] [false, true]) = 7 := by decide   -- 1 - 2 = -1 = 7 mod 8
 
+
+/-- the reduction loop of `_basic_mult` reached columns of height ≤ 2 within the model's fuel (the
+    Python `while` simply runs until it does; column heights depend only on the operand lengths) -/
+def multDone (A B : List Bool) : Bool :=
+  let AB := if B.length == 1 then (B, A) else (A, B)
+  AB.1.length == 1 ||
+    allLe2 (reduceLoop (4 * (AB.1.length + AB.2.length) + 8) (partials AB.1 AB.2))
+
+/-- `*` : the column-compression multiplier (partial products, full/half-adder reduction passes,
+    final ripple addition) holds the exact product in `len(A)+len(B)` bits, for every operand length.
+    Termination of the reduction within the model's fuel is the hypothesis `multDone`, discharged
+    for all operands by `multDone_always` below. -/
+theorem basicMult_eq_spec_partial (A B : List Bool) (hA : A ≠ []) (hB : B ≠ [])
+    (hdone : multDone A B = true) :
+    toNat (basicMult A B)
+      = Spec.comb .mul [(A.length, toNat A), (B.length, toNat B)] (A.length + B.length) := by
+  have hprod : toNat A * toNat B < 2 ^ (A.length + B.length) := by
+    rw [Nat.pow_add]; exact Nat.mul_lt_mul'' (toNat_lt A) (toNat_lt B)
+  simp only [Spec.comb, Nat.mod_eq_of_lt hprod]
+  unfold multDone at hdone
+  unfold basicMult
+  by_cases hb1 : (B.length == 1) = true
+  · simp only [hb1, ↓reduceIte] at hdone ⊢
+    have hb1' : B.length = 1 := by simpa using hb1
+    simp only [toNat_append, toNat_map_and, toNat, List.length_map, Nat.mul_zero,
+      Nat.add_zero, toNat_single B hb1', b2n, Bool.false_eq_true, ↓reduceIte]
+    exact Nat.mul_comm _ _
+  · simp only [hb1, Bool.false_eq_true, ↓reduceIte] at hdone ⊢
+    by_cases ha1 : (A.length == 1) = true
+    · have ha1' : A.length = 1 := by simpa using ha1
+      simp only [ha1, ↓reduceIte, toNat_append, toNat_map_and, toNat, List.length_map, Nat.mul_zero,
+        Nat.add_zero, toNat_single A ha1', b2n, Bool.false_eq_true]
+    · simp only [ha1, Bool.false_eq_true, ↓reduceIte, Bool.false_or] at hdone ⊢
+      exact mult_general A B hA _ hdone
+
+/-- the reduction loop always finishes within the model's fuel: every column of the partial-product
+    array has at most `len(A)` bits and each pass lowers the tallest column while it exceeds 2 -/
+theorem multDone_always (A B : List Bool) : multDone A B = true := by
+  unfold multDone
+  by_cases hb1 : (B.length == 1) = true
+  · simp only [hb1, ↓reduceIte, Bool.or_eq_true]
+    exact Or.inr (mult_loop_done B A)
+  · simp only [hb1, Bool.false_eq_true, ↓reduceIte, Bool.or_eq_true]
+    exact Or.inr (mult_loop_done A B)
+
+/-- `*` : **for every operand length and value** the synthesized multiplier holds the exact product in
+    `len(A)+len(B)` bits. -/
+theorem basicMult_eq_spec (A B : List Bool) (hA : A ≠ []) (hB : B ≠ []) :
+    toNat (basicMult A B)
+      = Spec.comb .mul [(A.length, toNat A), (B.length, toNat B)] (A.length + B.length) :=
+  basicMult_eq_spec_partial A B hA hB (multDone_always A B)
+
+-- a concrete instance: 5 x 6 = 30 in 6 bits
+example : toNat (basicMult [true, false, true] [false, true, true]) = 30 := by decide
 end Pyrtl.C03
